@@ -54,6 +54,10 @@ def execute(ctx, binp, scns, test, module, kind, extra_env=None):
     if skipped:
         ctx.notes["skipped_after_hangs_" + kind] = len(skipped)
     hangs = [t for t in traces if t.get("hang")]
+    if os.environ.get("VERIF_SELFTEST_CALM") and not extra_env:   # self-test of the calm pass: pretend three schedules stalled once
+        for t in traces[:3]:
+            t["hang"] = "UNREPRODUCED (self-test)"
+        hangs = [t for t in traces if t.get("hang")]
     unrep = [t for t in hangs if t["hang"].startswith("UNREPRODUCED")]
     if unrep and not extra_env:
         # seen once or twice in up to eight executions while 2 x cores schedules ran at the same time: decide in a calm
